@@ -4,6 +4,7 @@ import (
 	"context"
 	"fmt"
 	"strings"
+	"sync"
 	"testing"
 	"time"
 
@@ -242,6 +243,73 @@ func TestC20(t *testing.T) {
 		}
 	}
 	w.stop()
+	// concurrency: "bookkeeping for one stream never blocks or corrupts bookkeeping for others". Well-formed streams
+	// open and close on small shard ids while other streams open with ever larger shard ids (each one makes the
+	// counters grow); when everything has ended no stream may be counted as active. (Linearizable counters: the
+	// sequential model's answer for any interleaving of balanced +1/-1 pairs is "[]".)
+	if !stopAll {
+		rounds, perWorker := 6, 30000
+		if e.Thorough() {
+			rounds, perWorker = 40, 60000
+		}
+		for r := 0; r < rounds && !stopAll; r++ {
+			obs := proxy.NewReplicationStreamObserver(log.NewNoopLogger())
+			var wg sync.WaitGroup
+			stopGrow := make(chan struct{})
+			for k := int32(1); k <= 6; k++ {
+				wg.Add(1)
+				go func(k int32) {
+					defer wg.Done()
+					for i := 0; i < perWorker; i++ {
+						obs.ReportStreamValue(k, 1)
+						obs.ReportStreamValue(k, -1)
+					}
+				}(k)
+			}
+			growDone := make(chan struct{})
+			go func() {
+				defer close(growDone)
+				idx := int32(1500 + rng.IntN(500))
+				for {
+					select {
+					case <-stopGrow:
+						return
+					default:
+					}
+					obs.ReportStreamValue(idx, 1)
+					obs.ReportStreamValue(idx, -1)
+					if idx < 1<<19 {
+						idx = idx*5/4 + 1
+					} else {
+						return
+					}
+				}
+			}()
+			finished := make(chan struct{})
+			go func() { wg.Wait(); close(finished) }()
+			state := "[]"
+			select {
+			case <-finished:
+				close(stopGrow)
+				<-growDone
+				if s, ok := withTimeout(2*time.Second, obs.PrintActiveStreams); ok {
+					state = s
+				} else {
+					state = "blocked"
+				}
+			case <-time.After(60 * time.Second):
+				state = "wedged"
+			}
+			op := fmt.Sprintf("# concurrent round %d: 6 streams x %d open/close pairs on shards 1..6 while other streams open with growing shard ids", r, perWorker)
+			e.Emit(op, "#")
+			e.Evals++
+			e.Count("concurrent_round")
+			if state != "[]" {
+				e.Violation(map[string]any{"ops": []string{op}, "what": fmt.Sprintf("after all concurrently opened and closed streams have ended the observer reports active streams %s (a stream's bookkeeping was corrupted by another stream's open)", state)})
+				stopAll = true
+			}
+		}
+	}
 	e.Sample([]string{"new", "open default 1 1 2 238609294", "open default 1 1 2 1"})
 	e.Sample([]string{"new", "open lcm:6:3 1 1 2 abc", "open routing 1 1 2 1"})
 }
